@@ -347,6 +347,10 @@ def make_tf(fr, num_names, cat_names, cat_dt='int64'):
     if cat_names:
         feat[stype.categorical] = torch.tensor(fr['cat'], dtype=getattr(torch, cat_dt)).reshape(n, len(cat_names))
         names[stype.categorical] = list(cat_names)
+    from harness import stress
+    if stress.wants_fortran([fr.get('num'), fr.get('cat')]):
+        # column-major dense features (the layout of torch.from_numpy(df[cols].to_numpy())): same values
+        feat = {k: stress.fortran(v) for k, v in feat.items()}
     return TensorFrame(feat, names, _y_tensor(fr.get('y')))
 
 
@@ -378,7 +382,21 @@ def snapshot(tf):
     return {'names': {k.value: list(v) for k, v in tf.col_names_dict.items()},
             'feat': {k.value: [[fl(x) for x in row] for row in v.tolist()] for k, v in tf.feat_dict.items()},
             'dtypes': {k.value: str(v.dtype) for k, v in tf.feat_dict.items()},
-            'y': None if tf.y is None else [fl(x) for x in tf.y.tolist()]}
+            'y': None if tf.y is None else [fl(x) for x in tf.y.tolist()],
+            # what the frame answers when a column is looked up by name (a purity clause: "the input frame is never
+            # modified" includes its lookup table)
+            'lookup': _lookups(tf)}
+
+
+def _lookups(tf):
+    out = {}
+    for names in tf.col_names_dict.values():
+        for nm in names:
+            try:
+                out[nm] = [[fl(x) for x in row] for row in tf.get_col_feat(nm).tolist()]
+            except Exception as e:   # noqa
+                out[nm] = f'raises {type(e).__name__}'
+    return out
 
 
 def out_repr(out):
